@@ -16,6 +16,10 @@ def check(run):
         pf.model_and_replay(run, "exh-" + name, pf.pratt_cfg("exh-" + name, lazy=True, maxlen=n, alphabet=alpha), "C05", "C05")
     pf.trace_validate(run, "tokcorrupt", 20000 if thorough else 1600, run.seed, 100, "C05", "C05")
     pf.trace_validate(run, "charcorrupt", 20000 if thorough else 1600, run.seed + 7, 0, "C05", "C05", extra_args=["--charcorrupt", "100"])
+    # the same corrupted texts through the Lexer machine: an unterminated string or a malformed number must be a lexical error,
+    # not silently tokenized as something else (the parser-level judgement above takes the tokens the engine reports as given)
+    import lexfam, os, tlc
+    lexfam.validate_texts(run, "charcorrupt", os.path.join(tlc.WORK, "parse-trace-charcorrupt.ndjson"), "C05")
     run.exhaustive = False
     run.assumptions += ["token strings are laid out with single spaces", "hook H1 reports the token sequence the parser sees",
                         "the lenient readings the property allows (`;` omitted or trailing, trailing comma in list/map) and an unregistered operator in prefix position are MayAccept",
